@@ -257,7 +257,9 @@ class RaggedArray(IndexableArray, np.lib.mixins.NDArrayOperatorsMixin):
         ), "Reductions on ragged arrays are only supported for the last axis"
 
         if self.size == 0:
-            result = np.full(len(ra), fill_value=ufunc.identity)
+            # every row is empty: numpy's own reduction of the empty buffer is the identity in the right dtype
+            fill_value = ufunc.reduce(self.ravel()) if ufunc.identity is not None else None
+            result = np.full(len(ra), fill_value=fill_value)
         else:
             # if one or more of the last rows are empty,
             # ignore these when doing reduceat and pad in the end
